@@ -325,12 +325,12 @@ func run(id string, info propInfo, tier string, seed uint64, replay string) int 
 	}
 	wg.Wait()
 
-	// engine F: after the rapid shards of a thorough C06 run, one native fuzz campaign (all cores, time-boxed)
-	if id == "C06" && tier == "thorough" {
+	// engine F: after the rapid shards of a thorough run of C04/C05/C06/C08/C09, one native fuzz campaign (all cores, time-boxed)
+	if props.FuzzProps[id] && tier == "thorough" {
 		out := filepath.Join(scratch, "shard-fuzz.json")
-		c := exec.Command(testBin, "-test.run", "^TestFuzzC06$", "-test.count=1", "-test.timeout", "0")
+		c := exec.Command(testBin, "-test.run", "^TestFuzzCampaign$", "-test.count=1", "-test.timeout", "0")
 		c.Dir = scratch
-		c.Env = append(append([]string{}, baseEnv...), "VERIF_FUZZ=1", "VERIF_SHARD_OUT="+out, "VERIF_SHARD=fuzz", "VERIF_REPLAY_DIR="+newDir,
+		c.Env = append(append([]string{}, baseEnv...), "VERIF_FUZZ=1", "VERIF_FUZZ_PROP="+id, "VERIF_SHARD_OUT="+out, "VERIF_SHARD=fuzz", "VERIF_REPLAY_DIR="+newDir,
 			"VERIF_ROOT="+verifRoot)
 		o, err := c.CombinedOutput()
 		var fs props.Shard
